@@ -70,6 +70,10 @@ class Builder:
             return Enum("Option", 1, [self.value(inner, t)])
         if wrap in ("Vec", "Array"):
             return Seq([self.value(inner, x) for x in t], ety=last_seg(inner))
+        if wrap == "HashMap":
+            from mir import split_top
+            kt, vt = split_top(inner)
+            return Struct("HashMap", [Seq([Struct("()", [self.value(kt, k), self.value(vt, v)]) for k, v in t.items()])])
         if wrap == "Box":
             raise Unsupported("Box in template")
         name = last_seg(ty)
@@ -88,9 +92,7 @@ class Builder:
         if name == "bool":
             return bool(t)
         if name == "String":
-            return Opaque("String")
-        if name == "LinkIdx" and not isinstance(t, dict):
-            return Struct("LinkIdx", [self.value("u32", t)])
+            return Opaque("S:" + t) if isinstance(t, str) and t else Opaque("String")
         if self.schema.lookup(ty) is not None:
             fs = self.schema.lookup(ty)
             if t is None:
@@ -133,6 +135,10 @@ class Builder:
             return None if t is None else self.json(inner, t, model)
         if wrap in ("Vec", "Array"):
             return [self.json(inner, x, model) for x in t]
+        if wrap == "HashMap":
+            from mir import split_top
+            kt, vt = split_top(inner)
+            return {str(k): self.json(vt, v, model) for k, v in t.items()}
         name = last_seg(ty)
         if isinstance(t, Sym):
             v = model[t.name] if t.name in model else getattr(self, "fixed", {})[t.name]
@@ -146,7 +152,7 @@ class Builder:
         if name == "bool":
             return bool(t)
         if name == "String":
-            return ""
+            return t if isinstance(t, str) else ""
         if name == "LinkIdx" and not isinstance(t, dict):
             return self.json("u32", t, model)
         if self.schema.lookup(ty) is not None:
